@@ -111,10 +111,7 @@ func runDataCase(t *testing.T, dc dataCase) (res *histResult) {
 			return
 		}
 		w.bufmax = dc.PipeBuf
-		defer func() {
-			w.shutdown()
-			res.log, res.problems = w.log, append(res.problems, w.problems...)
-		}()
+		defer res.collect(w)
 		cS, _ := twoPeers(w)
 		_, ci := w.connect(cS, 1, stopScript{Kind: "ok"})
 		w.audit()
@@ -189,10 +186,7 @@ func runDurCase(t *testing.T, dc durCase) (res *histResult) {
 			return
 		}
 		w.bufmax = 512
-		defer func() {
-			w.shutdown()
-			res.log, res.problems = w.log, append(res.problems, w.problems...)
-		}()
+		defer res.collect(w)
 		cS, _ := twoPeers(w)
 		_, ci := w.connect(cS, 1, stopScript{Kind: "ok"})
 		if ci == nil || w.failed() {
@@ -310,14 +304,9 @@ func dataAndDuration(t *testing.T, r *run.R) {
 		}
 		res := runDataCase(t, dc)
 		detail := map[string]any{"case": dc, "events": res.log}
-		if reportBubble(r, caseID, res.bubble, detail) {
+		if !settle(r, caseID, res, detail) {
 			return
 		}
-		for _, p := range res.problems[:min(len(res.problems), 1)] {
-			detail["all_problems"] = res.problems
-			r.Violation(p.Sig, caseID, p.Msg, detail)
-		}
-		r.Eval(1)
 		mu.Lock()
 		for k, v := range res.classes {
 			r.Count(k, v)
@@ -349,14 +338,9 @@ func dataAndDuration(t *testing.T, r *run.R) {
 		}
 		res := runDurCase(t, dc)
 		detail := map[string]any{"case": dc, "events": res.log}
-		if reportBubble(r, caseID, res.bubble, detail) {
+		if !settle(r, caseID, res, detail) {
 			return
 		}
-		for _, p := range res.problems[:min(len(res.problems), 1)] {
-			detail["all_problems"] = res.problems
-			r.Violation(p.Sig, caseID, p.Msg, detail)
-		}
-		r.Eval(1)
 		mu.Lock()
 		for k, v := range res.classes {
 			r.Count(k, v)
